@@ -68,7 +68,9 @@ static int bufs() {
       long long pts[] = {base, base + 86399, base + 181LL * 86400, base + 364LL * 86400 + 86399};
       for (long long t : pts) { if (t > INT32_MIN && t < INT32_MAX) { if (tz.getUtcOffset((acetime_t) t).isError() && y >= 2000 && y <= 2049) errors++;
         // the other two accessors must not crash either, whatever the year (sanitizer build)
-        (void) tz.getDeltaOffset((acetime_t) t); (void) tz.getAbbrev((acetime_t) t); } }
+        (void) tz.getDeltaOffset((acetime_t) t); const char* ab = tz.getAbbrev((acetime_t) t);
+        // an abbreviation never exceeds the 6 characters its buffer holds (a longer FORMAT + LETTER is cut, not overrun)
+        if (ab && strnlen(ab, 64) > 6) errors += 1000; } }
       ExtendedZoneProcessor q;
       TimeZone tz2 = TimeZone::forZoneInfo(zi, &q);
       q.resetTransitionHighWater();
@@ -94,7 +96,8 @@ static int bufs() {
       long long base = (long long) LocalDate::forComponents(y, 1, 1).toEpochDays() * 86400LL;
       long long pts[] = {base, base + 86400, base + 181LL * 86400, base + 364LL * 86400 + 86399};
       for (long long t : pts) { if (t > INT32_MIN && t < INT32_MAX) { if (tz.getUtcOffset((acetime_t) t).isError() && y >= 2000 && y <= 2049) errors++;
-        (void) tz.getDeltaOffset((acetime_t) t); (void) tz.getAbbrev((acetime_t) t); } }
+        (void) tz.getDeltaOffset((acetime_t) t); const char* ab = tz.getAbbrev((acetime_t) t);
+        if (ab && strnlen(ab, 64) > 6) errors += 1000; } }
       OffsetDateTime o = tz.getOffsetDateTime(LocalDateTime::forComponents(y, 7, 1, 12, 0, 0)); (void) o;
     }
 #if defined(SEANDST_ACETIME_VERIF)
